@@ -45,6 +45,40 @@ func (m *monC14) OnStep(r *Runner, st *Step) {
 			return
 		}
 	}
+	// (f) before its reward start time an asset is not charged the take rate and earns no rewards: its
+	// staked total does not shrink at end-of-block and none of its reward indexes moves
+	for _, d := range pre.AssetOrder {
+		a := pre.Assets[d]
+		pa, ok := post.Assets[d]
+		if !ok || !post.Time.Before(a.RewardStartTime) {
+			continue
+		}
+		r.Eval("C14.f")
+		r.Probe("c14_step_during_warm_up")
+		if st.Kind == "end" && pa.TotalTokens.LT(a.TotalTokens) {
+			r.Violate("C14.f", "take-rate-during-warm-up", fmt.Sprintf("asset %s: staked total %s -> %s at the end-of-block at %s, before its reward start time %s", d, a.TotalTokens, pa.TotalTokens, post.Time, a.RewardStartTime))
+			return
+		}
+		for _, v := range post.ValOrder {
+			old := map[string]sdkmath.LegacyDec{}
+			if pv, ok := pre.ValInfos[v]; ok {
+				for _, h := range pv.GlobalRewardHistory {
+					if h.Alliance == d {
+						old[h.Denom] = h.Index
+					}
+				}
+			}
+			for _, h := range post.ValInfos[v].GlobalRewardHistory {
+				if h.Alliance != d {
+					continue
+				}
+				if o, ok := old[h.Denom]; (ok && h.Index.GT(o)) || (!ok && h.Index.IsPositive()) {
+					r.Violate("C14.f", "rewards-during-warm-up", fmt.Sprintf("asset %s on validator %s: reward index for %s grew during %s at %s, before the asset's reward start time %s", d, short(v), h.Denom, st.Name, post.Time, a.RewardStartTime))
+					return
+				}
+			}
+		}
+	}
 	weightChanged := false
 	for _, d := range post.AssetOrder {
 		if pa, ok := pre.Assets[d]; ok && !pa.RewardWeight.Equal(post.Assets[d].RewardWeight) {
